@@ -45,6 +45,30 @@ Proof. exact sky_hyperparameters. Qed.
 Theorem C16_sky_prior_construction : sky_prior_is_affine_normal_reparam = true.
 Proof. exact sky_prior_construction. Qed.
 
+(* slopes are per-pixel gradients along columns (x) and rows (y) *)
+Theorem C16_sky_plane_gradient : forall N r c back xs ys,
+  sky_tilted (Xof r (c + 1)) (Yof r (c + 1)) N N back xs ys - sky_tilted (Xof r c) (Yof r c) N N back xs ys = xs /\
+  sky_tilted (Xof (r + 1) c) (Yof (r + 1) c) N N back xs ys - sky_tilted (Xof r c) (Yof r c) N N back xs ys = ys.
+Proof. exact sky_plane_gradient. Qed.
+
+Theorem C16_sky_plane_pivot : forall s0 s1 back xs ys, sky_tilted (s0 / 2) (s1 / 2) s0 s1 back xs ys = back.
+Proof. exact sky_plane_pivot. Qed.
+
+Theorem C16_sky_plane_linear : forall X Y s0 s1 a b1 x1 y1 b2 x2 y2,
+  sky_tilted X Y s0 s1 (a * b1 + b2) (a * x1 + x2) (a * y1 + y2) =
+  a * sky_tilted X Y s0 s1 b1 x1 y1 + sky_tilted X Y s0 s1 b2 x2 y2.
+Proof. exact sky_plane_linear. Qed.
+
+Theorem C16_sky_plane_point_reflection : forall X Y s0 s1 back xs ys,
+  sky_tilted X Y s0 s1 back xs ys + sky_tilted (s0 - X) (s1 - Y) s0 s1 back xs ys = 2 * back.
+Proof. exact sky_plane_point_reflection. Qed.
+
+(* total sky light of the plane over every n x n frame (all n, by induction) *)
+Theorem C16_sky_plane_frame_total : forall n back xs ys,
+  sumZ (fun r => sumZ (fun c => sky_tilted (Xof r c) (Yof r c) (INR n) (INR n) back xs ys) n) n =
+  INR n * INR n * back - INR n * INR n / 2 * (xs + ys).
+Proof. exact sky_plane_frame_total. Qed.
+
 Print Assumptions C16_grid_convention.
 Print Assumptions C16_sky_none.
 Print Assumptions C16_sky_flat.
@@ -55,3 +79,8 @@ Print Assumptions C16_sky_unconvolved_once.
 Print Assumptions C16_sky_independent_of_source.
 Print Assumptions C16_sky_hyperparameters.
 Print Assumptions C16_sky_prior_construction.
+Print Assumptions C16_sky_plane_gradient.
+Print Assumptions C16_sky_plane_pivot.
+Print Assumptions C16_sky_plane_linear.
+Print Assumptions C16_sky_plane_point_reflection.
+Print Assumptions C16_sky_plane_frame_total.
